@@ -16,12 +16,24 @@ SPEC = dict(
     rule="operation sequences (cases of 30..280 operations over three arrays / four pointers per family) generated "
          "by the Lean driver from VERIF_SEED; legality and safety of element-reference arguments decided by the "
          "model (legal, refOK); distinct = distinct operation records",
-    partial=None,
+    partial="(i) PROVED about the executed model (stepFixed2 / wstepCurrent = /repo after 06f34988 + f70ab3a8): every Array_ "
+            "operation incl. element-aliased const T&, T&& and emplace arguments, arbitrary legal sequences, several arrays "
+            "(swap/copy/move/construct/view-to-view).  (ii) CORRESPONDENCE / PREDICATE ONLY: constructors (n), (n,v), "
+            "pointer/vector/initializer_list/converting/forward-iterator ranges, the single-pass input-iterator overloads, "
+            "same-array view assignment and the two ArrayView_ exceptions, non-owner handles (DontCopy ctor, shareData) are "
+            "tied as driver-level folds of proved operations plus per-record comparison; reads through (nested) const views "
+            "and ArrayView_=ArrayView_ are harness predicates; CloneOnWritePtr/ClonePtr theorems are single copy + write steps "
+            "(cow_shares_until_write, cow_independent, cow_reset, clone_ptr_deep) — multi-step histories (copy/move assignment, "
+            "release, detach, swap, 'use count = number of sharers', move constructors, self-assignment) are checked by "
+            "random histories against a value-semantic reference only; reset_on_copy / reinit_on_copy / "
+            "reference_ptr_shallow are DEFINITIONAL unfoldings of the model (the model is tied to the code by correspondence).  "
+            "(iii) NOT COVERED: ArrayView_ objects kept alive across owner operations, adoptData, stream I/O and comparison "
+            "operators of Array_, index types other than unsigned and signed char, absolute constructor-call counts "
+            "(only constructions - destructions is tied).",
     assumptions=[
         "operator new/delete and the C++ object model are trusted; the model's heap block is a list of cells",
-        "Array_<T,X> is exercised for T in {Counted, int, MoveOnly}, X in {unsigned, signed char}; non-owner "
-        "Array_ handles (shareData/adoptData/DontCopy constructors) and stream I/O are not modelled",
-        "input-iterator (single-pass) overloads of insert/assign/constructor are not exercised "
-        "(their growth sequence differs; contents follow from push_back/insert)",
+        "Array_<T,X> is exercised for T in {Counted, int, MoveOnly}, X in {unsigned, signed char}",
+        "exact capacity is compared (the growth formula is modelled code): a deliberate change of the growth policy "
+        "needs a model update",
     ],
 )
